@@ -205,7 +205,15 @@ def replay(ck, em, beh, rng, n):
                 if use_dask:
                     with dask.config.set(scheduler="synchronous"):
                         s = m.acc_stats(da.from_array(X[idx], chunks=(max(1, len(idx) // 2), D)))
-                        t, nn, px, pxx, l = fields(s)
+                        if step % 2:
+                            # the statistics are those of the machine that was asked: its parameters are changed
+                            # through the setters before the lazy fields are evaluated, and put back afterwards
+                            keep = (np.array(m.weights), np.array(m.means), np.array(m.variances))
+                            m.means, m.variances, m.weights = keep[1] - 1.75, keep[2] * 2.0, keep[0][::-1].copy()
+                            t, nn, px, pxx, l = fields(s)
+                            m.weights, m.means, m.variances = keep
+                        else:
+                            t, nn, px, pxx, l = fields(s)
                     s2 = em.GMMStats(C, D)
                     s2.t, s2.n, s2.sum_px, s2.sum_pxx, s2.log_likelihood = t, nn, px, pxx, l
                     s = s2
